@@ -7,6 +7,7 @@ import (
 	"testing"
 	"time"
 
+	"github.com/samaritan-proxy/samaritan/host"
 	"pgregory.net/rapid"
 
 	"verif/harness/ref"
@@ -31,6 +32,10 @@ type tagCase struct {
 	Migrate []int     `json:"migrate"`  // per tag: -1 stable, else how many of its first keys were moved to the importing node
 	Present []int     `json:"present"`  // per tag: how many of its keys exist at all (the others are absent everywhere)
 	Steps   []tagStep `json:"steps"`
+	// AloneNode: before the steps a freshly started node that has not met the cluster (CLUSTER NODES: itself, no slots) is
+	// added to the service's hosts, and the steps begin once it has answered a slot refresh. The cluster is as correctly
+	// sharded as before.
+	AloneNode bool `json:"alone_node,omitempty"`
 }
 
 const keysPerTag = 8
@@ -85,6 +90,27 @@ func checkTagRouting(c tagCase) (nt bool, v *verdict2) {
 		}
 		w.MoveKeys(slot, c.Migrate[ti])
 		nt = true
+	}
+	if c.AloneNode {
+		n, err := w.AddNode(-1)
+		if err != nil {
+			return nt, nil
+		}
+		w.Lock()
+		n.Alone = true
+		w.Unlock()
+		if err := px.P.OnSvcHostAdd([]*host.Host{host.New(n.Addr)}); err != nil {
+			return nt, nil
+		}
+		for dl := time.Now().Add(5 * time.Second); time.Now().Before(dl); time.Sleep(2 * time.Millisecond) {
+			w.Lock()
+			served := n.ClusterNodesServed
+			w.Unlock()
+			if served >= 2 {
+				nt = true
+				break
+			}
+		}
 	}
 	m0, _ := w.Redirects()
 	tainted := map[string]bool{}
@@ -182,6 +208,7 @@ func TestTagRouting(t *testing.T) {
 			c.Migrate = append(c.Migrate, mig)
 			c.Present = append(c.Present, rapid.IntRange(0, keysPerTag).Draw(t, "present"))
 		}
+		c.AloneNode = rapid.IntRange(0, 3).Draw(t, "alone") == 0
 		for i, n := 0, rapid.IntRange(1, 40).Draw(t, "steps"); i < n; i++ {
 			c.Steps = append(c.Steps, tagStep{Tag: rapid.IntRange(0, nt-1).Draw(t, "stag"), Key: rapid.IntRange(0, keysPerTag-1).Draw(t, "skey"),
 				Cmd: rapid.SampledFrom([]string{"GET", "GET", "SET", "EXISTS", "APPEND", "EVAL", "eval", "Eval", "eVAL"}).Draw(t, "cmd")})
